@@ -89,3 +89,6 @@ M("c12-effectively-cancelled-honours-only-own-shield", "C12", A, "CancelScope._e
 N("c12-n-pending-cancellation-plain-assignments", "C12", A, "AsyncIOTaskInfo.has_pending_cancellation",
   "        if task_state := _task_states.get(task):\n            if cancel_scope := task_state.cancel_scope:\n                return cancel_scope._effectively_cancelled",
   "        task_state = _task_states.get(task)\n        if task_state:\n            cancel_scope = task_state.cancel_scope\n            if cancel_scope:\n                return cancel_scope._effectively_cancelled")
+
+# from seeded change C12/i (round 5)
+M("c12-anext-checkpoints-after-receive", "C12", "abc/_streams.py", "UnreliableObjectReceiveStream.__anext__", "            return await self.receive()", "            item = await self.receive()\n            await __import__(\"anyio\").lowlevel.checkpoint()\n            return item", ["R12-i"])
